@@ -346,7 +346,7 @@ def fam_drop(rng):
     ops += [{"op": "load", "c": 0, "g": 100}, {"op": "load_full", "c": 0, "h": 100}]
     th = [ops]
     t2 = [{"op": "wait", "t": 1}]
-    t2 += [{"op": "into_inner_c", "c": 0, "h": 101}] if rng.random() < 0.5 else [{"op": "drop_c", "c": 0}]
+    t2 += [{"op": "into_inner_c", "c": 0, "h": 101}] if rng.random() < 0.5 else [{"op": "drop_c", "c": 0, "unwinding": rng.random() < 0.4}]
     t2 += [{"op": "deref_g", "g": 100}, {"op": "deref_h", "h": 100}, {"op": "deref_h", "h": 101},
            {"op": "drop_g", "g": 100}]
     th.append(t2)
